@@ -96,7 +96,17 @@ STRENGTHENED = """Checks strengthened because a seeded change was missed (genera
   wire (0.0 / -0.0), poll again.
 * **C14** `C14-iteml-decode-depth-guard-counter-leaks-on-failed-decode` - a valid list encoding is decoded right after a series of
   refused damaged copies of it.
-@@AGENTS2@@
+* **C15** `C15-sml-tokenizer-chunked-read-drops-literal-state` - long items: texts of 1k..98k characters with lengths around
+  1024 / 4096 / 8192 / ... / 65536, long numeric items, lists of up to 1800 items (`rt:long`, `enum_long`), with a minimiser that finds
+  the first length at which the failure appears.
+* **C16** `C16-duplicate-block-filter-keyed-by-system-and-block-number`, `C16-incomplete-message-table-capped-at-16-evicts-oldest` -
+  consecutive complete messages of distinct transactions with equal system bytes (`reuse`), and 17-40 multi-block messages open at once.
+* **C17** `C17-dispatcher-trigger-cleared-after-drain`, `C17-send-result-published-before-stored` - the `rush` family (back-to-back sends
+  of one application thread, a line carrier that keeps a preempted thread parked over several line rounds - the ordinary line actor
+  lets every thread settle between two line events - and a systematic sweep of every preemption site of the hand-over functions), and
+  parked preemptions in the send-result hand-over for the corruption cases.
+* **C20** `C20-report-id-counter-reset-on-enable` - automatic report ids, three collection events, variable lists of 1..4, and the
+  `restart_history` template (subscribe, restart, subscribe another event, trigger); events are compared per report by variable ids.
 
 One produced change was discarded instead of kept (`C20-second-link-resets-enabled`: linking a further report to an enabled
 collection event builds a fresh link object, which is disabled until the next S2F37): SEMI E5 itself says that linked event
